@@ -401,11 +401,13 @@ func runC20(c *Ctx) {
 	c.Clause("C20.8 the pacer turns exactly the elapsed time into budget (no floor on the elapsed time)")
 	c.Clause("C20.7 the ECN tracker (whose verdict triggers a congestion event) is consulted only for ACKs that advance the largest acknowledged, before that value is updated (the repository's stated precondition)")
 	c.Clause("C20.6 probe credit, which bypasses the congestion check in SendMode, is written only by the timeout / ACK / send / drop paths and is reset by every processed ACK")
+	c.Clause("C20.9 the packet numbers compared by the once-per-window guard come from one packet-number space")
 	c.NotCovered("the numeric inequalities over event histories")
 	c.NotCovered("cubic curve arithmetic and hybrid slow start")
 
 	c.rule("C20.1", func() { c20Growth(c) })
 	c.rule("C20.2", func() { c20Reduction(c) })
+	c.rule("C20.9", func() { c20OneNumberSpaceForTheController(c) })
 	c.rule("C20.3", func() { c20Gating(c) })
 	c.rule("C20.4", func() { c20Pacer(c) })
 	c.rule("C20.5", func() { c20AppLimitedAndMTU(c) })
